@@ -13,6 +13,9 @@ CHECKS = {
  "C10": dict(cat="model_checking", technique="exhaustive product of a structural module alphabet through the real nvm_serialize/nvm_deserialize with field-wise comparison, plus three-way differential execution (--run / nano_vm file / wrapper binary) of every corpus program",
              text="561,600 modules (the full product of the structural alphabet: string sets incl. empty/trailing-empty, function-entry profiles with boundary field values, import entries with 0-3 params, debug entries, code lengths around 4096, all flag values, entry points) are built through the nvm_* API and must survive serialize->deserialize field-by-field with an idempotent serializer; every compiler-produced module of the corpus (~225) must be a byte fixpoint of load->serialize; every hand/generated corpus program is run in-process, from its .nvm file and from its native wrapper and the three (stdout, exit) observations must be equal.",
              note="asan build for the codec part, plain build for the tools; exit statuses compared modulo 256; programs outside the corpus are not covered", ref="DESIGN.md §4 C10"),
+ "C13": dict(cat="fault_enumeration", technique="deviation-bounded exhaustive enumeration of structure-aware mutations of real modules (every field / operand x boundary values, every opcode replacement, count-boundary and raw-prefix families, arithmetic operand matrix), each run through the real loader, verifier and fuel-limited VM under ASan/UBSan with fork+bisection",
+             text="Each of ~87,000 (quick) well-checksummed hostile images is one deviation away from a compiler-produced module (or a member of the raw-prefix / table-count / arithmetic families) and is pushed through the real nvm_deserialize, nvm_verify and, when accepted and import-free, vm_execute under an instruction budget (hook H1) in an ASan+UBSan build; any sanitizer report, signal, timeout, or a decode/invalid-opcode error at an instruction boundary the verifier walked is a violation, attributed to a single element by bisection, replayed twice, and grouped by cause signature. thorough adds all pairs of operand deviations within a function.",
+             note="boundary value pools, one deviation (thorough: two); modules with imports are loaded and verified only; malloc failure emulated for requests > 1 GiB; clang sanitizers trusted", ref="DESIGN.md §4 C13"),
 }
 NA_REASON = "check not built yet in this round (planned, see DESIGN.md §9); no claim is made"
 def main():
